@@ -3,6 +3,27 @@
 import json, glob, os, re
 V = os.path.dirname(os.path.dirname(os.path.abspath(__file__)))
 DESC = {
+ "m2-C01": ("expires compared through Unix(): accepted up to expires + 1 s when the instant has a sub-second part", "verification instant in (expires, expires+1s)", ""),
+ "m2-C02": ("b1 reader refuses Signature > 16384 / header block > 524288 although the limits are inclusive", "a b1 exchange exactly at a limit", ""),
+ "m2-C03": ("b1 index: a URL with one response and a Variants header gets a non-empty variants-value", "b1, single-response URL carrying Variants/Variant-Key", ""),
+ "m2-C04": ("same slip as m2-C03 delivered for C04", "b1, single-response URL carrying Variants", ""),
+ "m2-C05": ("bundle reader caches decoded responses by offset only", "two index entries with the same offset and different lengths", "the `idxalias` mutation was added while the agents ran (section 12, K10)"),
+ "m2-C06": ("7-day cap measured from the verification time instead of the signed date", "expires - date > 7 days verified late in the window", ""),
+ "m2-C07": ("integrity-block prepend done by append + swap", "a third signature (order wrong from the 3rd on)", ""),
+ "m2-C08": ("Signature `expires` computed from a duration", "signer Date/Expires with sub-second parts, Expires fraction < Date fraction", "generators used whole seconds: signer times now carry random nanoseconds (K10)"),
+ "m2-C09": ("lifetime cap applied to the remaining time", "lifetime > 7 days verified less than 7 days before expiry", ""),
+ "m2-C10": ("offset+length guard only bounds length", "index offset 2^64-k with k between the responses offset and its length", "`idxwrap2` mutation added (K10)"),
+ "m2-C11": ("EncodeTextString validates with a range loop comparing to RuneError", "a text string containing a correctly encoded U+FFFD", "U+FFFD added to the text universes of MC_CborEnc / MC_CborDec and the generators (K10)"),
+ "m2-C12": ("DecodeTextString refuses U+FFFD", "a text string containing U+FFFD", "as m2-C11"),
+ "m2-C13": ("length-first map key order in cbor.Deterministic", "map keys of different major types / lengths where bytewise and length-first order differ", ""),
+ "m2-C14": ("record size + 32 > limit refused by the MI decoder", "record sizes within 32 of the limit", ""),
+ "m2-C15": ("a chunk that failed validation stays in the decoder's output buffer", "a consumer that reads again after the error", "harness stopped at the first error: it now makes 3 more reads and Trace_Mice judges them (K10)"),
+ "m2-C16": ("isValidKey/isValidToken test only the low byte of a rune", "a key / token with a rune >= U+0100 whose low byte is an allowed character", "non-ASCII runes added to generated keys and tokens (K10)"),
+ "m2-C17": ("a zero-length byte string decodes to nil", "an augmented certificate with an empty OCSP / SCT value", ""),
+ "m2-C18": ("b1 variants-value buffer hoisted out of the per-URL loop", "b1 bundle mixing a multi-variant URL and a single-response URL; depends on map iteration order", "missed at first (quick MC_Bundle stops at 2 exchanges, all variant templates on one URL): second MC_Bundle configuration (3 exchanges over variant + plain templates) and a mixed b1 bundle in the purity histories (K10)"),
+ "m2-C19": ("Bundle.WriteTo reports 0 bytes when the first write fails", "a short write with error inside the 15-byte magic/version prefix", ""),
+ "m2-C20": ("authority index points at the last certificate of the signer's chain", "sign-bundle with a chain of 2 certificates", "missed at first by C20 (caught by C06): the pipelines now sign with leaf-only and leaf+issuer chains (K10)"),
+
  "m1-C01": ("verifyPayload returns early for an empty payload in b2/b3 (skips the MI decoder)", "truncating the file at the first payload byte / Payload=nil of an exchange signed with a non-empty payload", ""),
  "m1-C02": ("MI NewDecoder also counts the 32-byte proof against the record-size limit", "record sizes 16353..16384 (legal, accepted by the signer) no longer verify", ""),
  "m1-C03": ("CBOR head boundary `n <= 1<<16` (65536 written as 19 00 00)", "a body / offset / response length of exactly 65536", ""),
